@@ -63,7 +63,12 @@ class Client(object):
         elif self.mode == "mute":
             self.sock = self.sp.raw(timeout=15, token=None)        # connected, never says a word: sits in the authenticator
         elif self.mode == "intruder":
-            self.sock = self.sp.raw(timeout=15, token=[b"wrongTOK", b"rvTOKEN?", b"rvT", b"\x00"][self.idx % 4])
+            tokens = [b"wrongTOK", b"rvTOKEN?", b"rvT", b"\x00"]
+            if getattr(self.sp, "auth_kind", None) == "patient":
+                # an authenticator without time limit in a single accept thread would wait for the rest of a short token for as
+                # long as the intruder stays: that is the configuration's doing, not the subject here - only full-length tokens
+                tokens = [b"wrongTOK", b"rvTOKEN?"]
+            self.sock = self.sp.raw(timeout=15, token=tokens[self.idx % len(tokens)])
         else:
             self.sock = self.sp.raw(timeout=15, token=True if self.sp.auth else None)
             self.sess = rn.RawSession(self.sock)
@@ -688,8 +693,82 @@ CHURN_QUICK = [("threaded", False, 40, 4), ("threaded", True, 30, 4), ("forking"
                ("threadpool", False, 20, 4), ("threadpool", True, 20, 4)]          # 150 connect / leave cycles
 
 
+def reset_during_setup(ctx):
+    """a client that resets its connection while the server is still setting it up (inside the service's on_connect): once the
+    set-up has run its course the server must hold nothing of it - no entry in its tables, the hooks balanced. In process,
+    deterministic: on_connect waits for the reset; stock servers x {no authenticator, one that returns the accepted socket, one
+    that returns another socket object as ssl wrapping does}."""
+    import gc
+    import logging
+    import socket
+    import struct
+    import threading
+    import rpyc
+    from rpyc.utils.server import ThreadedServer, ThreadPoolServer
+    quiet = logging.getLogger("rv-c17-setup")
+    quiet.propagate = False
+    quiet.setLevel(logging.CRITICAL + 1)
+
+    def same(sock):
+        return sock, "same"
+
+    def rewrap(sock):
+        return socket.socket(fileno=sock.detach()), "other-object"
+    saved_hook = threading.excepthook
+    threading.excepthook = lambda args: ctx.count("setup_thread_exceptions_%s" % getattr(args.exc_type, "__name__", "?"))
+    try:
+        for kind, cls in (("threaded", ThreadedServer), ("threadpool", ThreadPoolServer)):
+            for aname, auth in (("none", None), ("same-socket", same), ("other-socket-object", rewrap)):
+                stats = dict(c=0, d=0)
+                gate, done = threading.Event(), threading.Event()
+
+                class Svc(rpyc.Service):
+                    def on_connect(self, conn, stats=stats, gate=gate, done=done):
+                        stats["c"] += 1
+                        gate.set()
+                        done.wait(10)
+
+                    def on_disconnect(self, conn, stats=stats):
+                        stats["d"] += 1
+                srv = cls(Svc, hostname="127.0.0.1", port=0, auto_register=False, logger=quiet, authenticator=auth)
+                srv._listen()
+                t = threading.Thread(target=srv.start, daemon=True, name="rv-setup-" + kind)
+                t.start()
+                wit = dict(family="reset-during-setup", kind=kind, authenticator=aname)
+                try:
+                    s = socket.create_connection(("127.0.0.1", srv.port))
+                    if not gate.wait(10):
+                        ctx.inconclusive("reset-during-setup: on_connect was not reached (%s/%s)" % (kind, aname))
+                        continue
+                    s.setsockopt(socket.SOL_SOCKET, socket.SO_LINGER, struct.pack("ii", 1, 0))
+                    s.close()
+                    time.sleep(0.2)
+                    done.set()
+                    t0 = time.time()
+                    while time.time() - t0 < 6 and (len(srv.clients) or len(getattr(srv, "fd_to_conn", ())) or stats["d"] != stats["c"]):
+                        time.sleep(0.05)
+                    ctx.case(("reset-during-setup", kind, aname), nontrivial=True)
+                    ctx.count("resets_during_setup")
+                    if len(srv.clients) or len(getattr(srv, "fd_to_conn", ())):
+                        ctx.violation("C17/%s/table-entry-left" % kind, "a client reset its connection while on_connect was running (authenticator: %s); "
+                                      "afterwards server.clients holds %d sockets, fd_to_conn %d entries - for as long as the server lives" % (
+                                          aname, len(srv.clients), len(getattr(srv, "fd_to_conn", ()))), wit)
+                    if stats["d"] != stats["c"]:
+                        gc.collect()
+                        ctx.violation("C17/%s/disconnect-hook-missing" % kind, "a client reset its connection while on_connect was running: on_connect ran %d times, "
+                                      "on_disconnect %d times (%d after a garbage collection)" % (stats["c"], stats["d"] if False else stats["d"], stats["d"]), wit)
+                finally:
+                    done.set()
+                    srv.close()
+                    t.join(10)
+    finally:
+        threading.excepthook = saved_hook
+
+
 def run(ctx):
     sc = rn.SharedCtx(ctx)
+    if ctx.shard[0] == 0:
+        reset_during_setup(ctx)
     jobs = []
     per_config = ctx.budget(5, 2000 // 8)
     shard = ctx.shard[0]
